@@ -131,7 +131,6 @@ from .astutil import (
     re_alnumdot_alnum,
     re_identifier,
     re_identifier_dotted,
-    re_identifier_alias,
     bistr,
     is_valid_target,
     is_valid_del_target,
@@ -2307,6 +2306,18 @@ def _one_info_identifier_required(
 
 _onestatic_identifier_required = onestatic(_one_info_identifier_required, _restrict_default, code_as=code_as_identifier)
 
+def _loc_alias_name_end(self: fst.FST) -> tuple[int, int]:
+    """End of the (maybe dotted) name of an `alias` which has an `asname`. Not just `len(name)` past the start because
+    there may be whitespace or line continuations around the dots, so walk back from the `asname` over the `as`."""
+
+    lines = self.root._lines
+    ln, col, end_ln, end_col = self.loc
+    as_ln, as_col, _ = prev_frag(lines, ln, col, end_ln, end_col - len(self.a.asname))  # the 'as', asname is the last thing in the alias
+    name_ln, name_col, src = prev_frag(lines, ln, col, as_ln, as_col)  # last part of the name
+
+    return name_ln, name_col + len(src)
+
+
 def _one_info_identifier_alias(
     self: fst.FST, static: onestatic, idx: int | None, field: str
 ) -> oneinfo:  # required, cannot delete or put new
@@ -2315,10 +2326,9 @@ def _one_info_identifier_alias(
     if not self.a.asname:  # the whole alias is the name, which may be spread out with whitespace or line continuations around the dots
         return oneinfo('', None, fstloc(ln, col, end_ln, end_col))
 
-    end_col = re_identifier_alias.match(self.root._lines[ln], col,
-                                        end_col if end_ln == ln else 0x7fffffffffffffff).end()  # must be there
+    end_ln, end_col = _loc_alias_name_end(self)
 
-    return oneinfo('', None, fstloc(ln, col, ln, end_col))
+    return oneinfo('', None, fstloc(ln, col, end_ln, end_col))
 
 _onestatic_alias_name_all    = onestatic(_one_info_identifier_alias, _restrict_default, code_as=code_as_identifier_alias)
 _onestatic_alias_name_dotted = onestatic(_one_info_identifier_alias, _restrict_default, code_as=code_as_identifier_dotted)
@@ -2725,8 +2735,7 @@ def _one_info_alias_asname(self: fst.FST, static: onestatic, idx: int | None, fi
         loc_prim = None
 
     else:
-        name_end_col = re_identifier_alias.match(lines[ln], col, end_col if end_ln == ln else 0x7fffffffffffffff).end()  # not len(ast.name), there may be whitespace around the dots
-        loc_insdel = fstloc(ln, name_end_col, end_ln, end_col)
+        loc_insdel = fstloc(*_loc_alias_name_end(self), end_ln, end_col)  # not len(ast.name) past the start, there may be whitespace around the dots
         ln, col = next_find(lines, ln, col, end_ln, end_col, 'as')  # skip the 'as'
         ln, col = next_find(lines, ln, col + 2, end_ln, end_col, asname)  # must be there
         loc_prim = fstloc(ln, col, ln, col + len(asname))
